@@ -359,3 +359,65 @@ def check_guard_handover(ctx, F, rule="E-FREELIST.handover"):
                                 "at: what is parked there (free slots / a count delta) is lost when the next session zeroes the "
                                 "local state" % "`, `".join(missing)))
     return n
+
+
+ALLOCATED_WRITERS = {
+    # function suffix -> why it may move the slot array's allocation mark
+    "::get_slot_from_shared": "hands out the next chunk / slot: the mark only grows",
+}
+
+
+def check_allocation_mark(ctx, F, rule="E-FREELIST.mark"):
+    """`SharedStoreState::allocated` is the high-water mark of the slot array: everything below it has been handed to
+    some thread (whole chunks at a time), and slots come back through the free lists only.  Threads hold chunks
+    concurrently, so the mark must never be moved back.  Who-may-write: the field is assigned in
+    `get_slot_from_shared` only (struct literals that create the state aside), and there only with a value computed
+    by an addition."""
+    writers = {}
+    for fid, m in sorted(F.mir.items()):
+        if not fid.startswith("oxidd_manager_index::"):
+            continue
+        B = cfg.Body(m)
+        for i in sorted(B.reach):
+            b = m["blocks"][i]
+            if b["c"]:
+                continue
+            for s in b["s"]:
+                lhs = s.get("lhs")
+                if isinstance(lhs, dict) and lhs.get("p") and lhs["p"][-1] == ".allocated@" + SHARED:
+                    writers.setdefault(fid, []).append(s.get("rv") or {})
+    n = 0
+    if not ctx.anchor(rule, "assignments to SharedStoreState::allocated", bool(writers)):
+        return 0
+    for fid, rvs in sorted(writers.items()):
+        n += 1
+        nice = re.sub(r"\{closure#\d+\}", "{closure}", F.nice(fid))
+        key = next((k for k in ALLOCATED_WRITERS if nice.endswith(k)), None)
+        grows = True
+        m = F.mir[fid]
+        B = cfg.Body(m)
+        for rv in rvs:
+            if rv.get("k") in ("bin", "checked") and str(rv.get("o", "")).startswith(("Add", "Mul")):
+                continue
+            if rv.get("k") == "use":
+                # a temp holding an Add / Mul result (possibly through a checked-op tuple field)
+                p = cfg.op_place(rv.get("op"))
+                pl = p if isinstance(p, int) else (p or {}).get("l")
+                ok = False
+                for j in sorted(B.reach):
+                    for s2 in m["blocks"][j]["s"]:
+                        if s2.get("lhs") == pl and (s2.get("rv") or {}).get("k") in ("bin", "checked") and \
+                                str((s2.get("rv") or {}).get("o", "")).startswith(("Add", "Mul")):
+                            ok = True
+                if ok:
+                    continue
+            grows = False
+        ctx.ob(rule, "%s:%s" % (rule, key or nice), key is not None and grows,
+               "%s (%s): %s" % (nice, F.where(fid),
+                                "moves the allocation mark forward only (%s)" % ALLOCATED_WRITERS[key] if key and grows else
+                                "assigns SharedStoreState::allocated%s: the mark is the boundary below which every chunk belongs to "
+                                "some thread; moving it back hands a chunk that another thread still fills out a second time "
+                                "(two threads write nodes into the same slots)"
+                                % ("" if key else " outside get_slot_from_shared") if not key else
+                                "assigns the allocation mark a value that is not computed by an addition (the mark must only grow)"))
+    return n
